@@ -154,6 +154,7 @@ class Result:
         self.enabled = []  # tuple of enabled ids at each step
         self.default = []  # what a PreemptPolicy would have chosen without deviation (or None)
         self.kinds = []  # kind of the operation performed at each step ("line", "acquire", ...)
+        self.where = []  # (function name, line number) for "line" steps, else None
         self.timeoutable = []  # tuple of thread ids whose timed operation could have been timed out, per step
         self.timeouts = 0  # timeouts fired (chosen or forced)
         self.forced_timeouts = []  # (step, tid): fired because nothing else could run
@@ -290,6 +291,7 @@ class Scheduler:
             raise SchedAbort()
         lt.pending = None
         self.result.kinds.append(kind)
+        self.result.where.append(obj if kind == "line" else None)
         if kind == "line":
             self.result.line_steps += 1
         if lt.timed_out:
@@ -700,16 +702,19 @@ class Shim:
 
 
 # ------------------------------------------------------------------------------ enumeration helpers
-def deviations_of(result, after=-1, kinds=None, timeouts=True):
+def deviations_of(result, after=-1, kinds=None, timeouts=True, funcs=None):
     """All single deviations applicable to a finished run: (step, tid) for every step > after
     and every enabled thread other than the one that ran, plus (step, -tid) for every thread
     whose timed operation could have been timed out at that step (`timeouts`).  `kinds`:
-    restrict to steps whose operation kind is in the set (e.g. {"line"})."""
+    restrict to steps whose operation kind is in the set (e.g. {"line"}); `funcs`: line steps
+    count only inside functions with these names (`Result.where`)."""
     out = []
     for i, (ran, en) in enumerate(zip(result.ran, result.enabled)):
         if i <= after:
             continue
         if kinds is not None and result.kinds[i] not in kinds:
+            continue
+        if funcs is not None and result.kinds[i] == "line" and (result.where[i] or ("",))[0] not in funcs:
             continue
         for t in en:
             if t != ran:
